@@ -199,6 +199,15 @@ func (m *listModel) step(op *LOp) (listStep, error) {
 			return listStep{}, errUnsupported{"sort needs numbers and strings"}
 		}
 		return listStep{stmts: []string{R(H + ".sort()")}, result: "[" + canonList(sortedCopy(*l)) + "]"}, nil
+	case "sort-store":
+		// keep the sorted copy, change it, and look at the original again
+		if !sortKeyOK(*l) {
+			return listStep{}, errUnsupported{"sort needs numbers and strings"}
+		}
+		sorted := sortedCopy(*l)
+		sorted = append(sorted, HV{K: 's', Str: "pushed"})
+		sorted[0] = HV{K: 's', Str: "changed"}
+		return listStep{stmts: []string{"kept = " + H + ".sort()", "kept.push(\"pushed\")", "kept[0] = \"changed\"", R("kept")}, result: "[" + canonList(sorted) + "]"}, nil
 	case "before-start":
 		k := n + 1 + op.Idx
 		if op.Idx < 0 {
@@ -256,6 +265,41 @@ func (m *listModel) step(op *LOp) (listStep, error) {
 				cmps[i] = fmt.Sprintf("%s[%d] == %s", H, i, scalarLit(v))
 			}
 			return listStep{stmts: []string{R(H + ".contains(" + G + ".pop())"), "print \"Q\", [" + strings.Join(cmps, ", ") + "]"}, q: true}, nil
+		case "push-get":
+			// the argument is an index read on another array, possibly past its end
+			idx := op.Idx
+			real := idx
+			if real < 0 {
+				real += gn
+			}
+			if real < 0 {
+				return listStep{}, errUnsupported{"before start"}
+			}
+			var v HV = hNull()
+			if real < gn {
+				v = (*g)[real]
+			}
+			if v.isContainer() {
+				return listStep{}, errUnsupported{"container element would be shared"}
+			}
+			*l = append(*l, v)
+			// ... and the pushed element is then overwritten: the other array must not notice
+			(*l)[len(*l)-1] = HV{K: 's', Str: "over"}
+			return listStep{stmts: []string{R(fmt.Sprintf("%s.push(%s[%d]).length()", H, G, idx)), fmt.Sprintf("%s[-1] = \"over\"", H)}, result: "[" + strconv.Itoa(len(*l)) + "]"}, nil
+		case "set-get":
+			// a[i] = b[j] with j possibly past the end of b, then a[i] reassigned
+			v2, ok := parseLit(op.Lit)
+			if !ok || v2.isContainer() {
+				return listStep{}, errUnsupported{"literal"}
+			}
+			if op.Idx < 0 || op.Idx > n || gn > 40 {
+				return listStep{}, errUnsupported{"index"}
+			}
+			for len(*l) <= op.Idx {
+				*l = append(*l, hNull())
+			}
+			(*l)[op.Idx] = v2
+			return listStep{stmts: []string{fmt.Sprintf("%s[%d] = %s[%d]", H, op.Idx, G, gn+1), fmt.Sprintf("%s[%d] = %s", H, op.Idx, op.Lit)}}, nil
 		case "set-length":
 			// a[b.length()] = lit  (index computed by a method on another array)
 			v, ok := parseLit(op.Lit)
@@ -503,9 +547,11 @@ func genListCase(t *Tape, maxOps int) *ListCase {
 	for tries := 0; len(c.Ops) < n && tries < n*6; tries++ {
 		op := LOp{Arr: t.Draw(3)}
 		ln := len(m.lists[op.Arr])
-		switch t.Weighted(8, 5, 5, 3, 4, 4, 4, 3, 6, 1) {
+		switch t.Weighted(8, 5, 5, 3, 4, 4, 4, 3, 8, 1, 2) {
 		case 9:
 			op.Kind = "contains-unset"
+		case 10:
+			op.Kind = "sort-store"
 		case 0:
 			op.Kind, op.Lit = "push", genListLit(t, profile)
 		case 1:
@@ -547,7 +593,13 @@ func genListCase(t *Tape, maxOps int) *ListCase {
 		default:
 			op.Kind = "nested"
 			op.Other = t.Draw(3)
-			op.Nested = []string{"push-pop", "push-popfirst", "push-length", "push-pushlen", "push-sortlen", "contains-pop", "set-length", "push-selflen"}[t.Draw(8)]
+			op.Nested = []string{"push-pop", "push-popfirst", "push-length", "push-pushlen", "push-sortlen", "contains-pop", "set-length", "push-selflen", "push-get", "set-get"}[t.Draw(10)]
+			if op.Nested == "push-get" {
+				op.Idx = t.Draw(len(m.lists[op.Other])+4) - 1
+			}
+			if op.Nested == "set-get" {
+				op.Idx = t.Draw(ln + 1)
+			}
 			op.Lit, op.Lit2 = genListLit(t, profile), genListLit(t, profile)
 		}
 		// dry run on a copy of the model
